@@ -90,3 +90,11 @@ impl CacheSequence {
         }
     }
 }
+
+#[cfg(rnacos_verif)]
+impl SimpleSequence {
+    /// verification hook (read-only): (last_id, cache_size, batch_size)
+    pub fn verif_state(&self) -> (u64, u64, u64) {
+        (self.last_id, self.cache_size, self.batch_size)
+    }
+}
